@@ -620,4 +620,126 @@ theorem e16_pair (ch : Char) (hb : 0x10000 ≤ ch.toNat) (p : List Int) (n : Int
   rw [hqd, hrd] at this
   rw [this]
 
+/-! ## the regenerated case tables: one linear pass per fact -/
+
+/-- `p i a b` for every complete pair `(a, b)` at pair index `i` -/
+def allPairs (p : Nat → UInt8 → UInt8 → Bool) : Nat → List UInt8 → Bool
+  | i, a :: b :: t => p i a b && allPairs p (i + 1) t
+  | _, _ => true
+
+theorem allPairs_get (p : Nat → UInt8 → UInt8 → Bool) : ∀ (l : List UInt8) (i : Nat), allPairs p i l = true →
+    ∀ c, c * 2 + 1 < l.length → p (i + c) (l.getD (c * 2) 0) (l.getD (c * 2 + 1) 0) = true
+  | [], _, _, c, hc => by simp at hc
+  | [_], _, _, c, hc => by simp at hc
+  | a :: b :: t, i, h, c, hc => by
+    simp only [allPairs, Bool.and_eq_true] at h
+    cases c with
+    | zero => simpa using h.1
+    | succ c =>
+      have := allPairs_get p t (i + 1) h.2 c (by simp only [List.length_cons] at hc; omega)
+      have e1 : (c + 1) * 2 = c * 2 + 1 + 1 := by omega
+      have e2 : i + (c + 1) = i + 1 + c := by omega
+      rw [e1, e2]
+      simpa using this
+
+theorem array_getD (t : Array UInt8) (i : Nat) : t.getD i 0 = t.toList.getD i 0 := by
+  simp [Array.getD_eq_getD_getElem?, List.getD_eq_getElem?_getD]
+
+/-- the fact `p` holds for the entry of every code point whose two bytes lie inside the table -/
+theorem table_fact (p : Nat → UInt8 → UInt8 → Bool) (t : Array UInt8) (h : allPairs p 0 t.toList = true)
+    (c : Nat) (hc : c * 2 + 1 < t.size) : p c (t.getD (c * 2) 0) (t.getD (c * 2 + 1) 0) = true := by
+  have := allPairs_get p t.toList 0 h c (by simpa using hc)
+  simpa [array_getD] using this
+
+/-- entry shape: a code point below 128 has a one-byte entry; a one-byte entry is ASCII; the first byte of
+    a two-byte entry is a lead byte (never 0x80–0xBF) -/
+def shapeOK (i : Nat) (a b : UInt8) : Bool :=
+  (decide (128 ≤ i) || b == 0) && (if b == 0 then decide (a < 0x80) else decide (0xC0 ≤ a))
+
+/-- no two-byte entry of the lower-case table equals the re-encoding of a code point above the cut-over -/
+def lowOrdOK (i : Nat) (a b : UInt8) : Bool :=
+  decide (1415 < i) || (decide (a < 0xD6) || (a == 0xD6 && decide (b ≤ 0x87)) || decide (0xE0 ≤ a))
+
+theorem reencode_eq (code : Nat) (h : code ≠ 0) : reencode code = enc32 (code : Int) := by
+  unfold reencode
+  rw [utf32toUtf8]
+  simp [contB, h]
+
+theorem enc32_len2 (c : Nat) (h : c < 2048) : (enc32 (c : Int)).length ≤ 2 := by
+  unfold enc32 enc2; split <;> (try split) <;> (try split) <;> simp <;> omega
+theorem enc32_len3 (c : Nat) (h : c < 65536) : (enc32 (c : Int)).length ≤ 3 := by
+  unfold enc32 enc2 enc3; split <;> (try split) <;> (try split) <;> simp <;> omega
+
+theorem tableBytes_len (t : Array UInt8) (c : Nat) : (tableBytes t c).length ≤ 2 := by
+  simp only [tableBytes]; split <;> simp
+
+/-- one code point: the mapped bytes are never more than the bytes the enumerator consumed for it -/
+theorem mapCode_len (t : Array UInt8) (cut : Nat) (hs : allPairs shapeOK 0 t.toList = true)
+    (hcut : 128 ≤ cut) (hsz : cut * 2 ≤ t.size) (p : Nat × Nat) (hp : okPair p) :
+    (mapCode t cut p.1).length ≤ p.2 := by
+  obtain ⟨code, n⟩ := p
+  simp only [okPair] at hp
+  dsimp only at *
+  unfold mapCode
+  split
+  · rename_i hlt
+    have hl2 := tableBytes_len t code
+    rcases hp with ⟨rfl, h1⟩ | ⟨rfl, _⟩ | ⟨rfl, _⟩ | ⟨rfl, _⟩
+    · have := table_fact shapeOK t hs code (by omega)
+      unfold shapeOK at this
+      have hd : decide (128 ≤ code) = false := decide_eq_false (by omega)
+      simp only [hd, Bool.false_or, Bool.and_eq_true] at this
+      have h2 : t.getD (code * 2 + 1) 0 = 0 := by simpa using this.1
+      simp only [tableBytes, h2]
+      simp
+    · omega
+    · omega
+    · omega
+  · rename_i hge
+    have h0 : code ≠ 0 := by omega
+    rw [reencode_eq code h0]
+    rcases hp with ⟨rfl, h1⟩ | ⟨rfl, h2⟩ | ⟨rfl, h3⟩ | ⟨rfl, _⟩
+    · omega
+    · exact enc32_len2 code h2
+    · exact enc32_len3 code h3
+    · exact enc32_len _
+
+theorem flatMap_len_le (f : Nat → List UInt8) (l : List (Nat × Nat)) (h : ∀ p ∈ l, (f p.1).length ≤ p.2) :
+    (l.flatMap fun cn => f cn.1).length ≤ (l.map (·.2)).sum := by
+  induction l with
+  | nil => simp
+  | cons p t ih =>
+    simp only [List.flatMap_cons, List.length_append, List.map_cons, List.sum_cons]
+    have := h p (by simp)
+    have := ih (fun q hq => h q (by simp [hq]))
+    omega
+
+/-- `toUpperCase`/`toLowerCase` on any byte string: inside the allocation, and never longer than the input -/
+theorem caseMap_len (t : Array UInt8) (cut : Nat) (hs : allPairs shapeOK 0 t.toList = true)
+    (hcut : 128 ≤ cut) (hsz : cut * 2 ≤ t.size) (s : List UInt8) :
+    ∃ out, caseMap t cut s = some out ∧ out.length ≤ s.length := by
+  have h1 := enum_some (mem s) (hasNul_mem s)
+  cases hr : enumAll (mem s) with
+  | none => simp [hr] at h1
+  | some l =>
+    refine ⟨l.flatMap fun cn => mapCode t cut cn.1, by simp [caseMap, hr], ?_⟩
+    have hok := enum_ok (mem s) l hr
+    have hsum := enum_sum (mem s) l hr
+    have := flatMap_len_le (mapCode t cut) l (fun p hp => mapCode_len t cut hs hcut hsz p (hok p hp))
+    have := strlen_mem s
+    omega
+
+/-- ASCII text enumerates byte by byte -/
+theorem enum_ascii (s : List UInt8) (h : ∀ b ∈ s, b ≠ 0 ∧ b.toNat < 128) :
+    enumAll (mem s) = some (s.map fun b => (b.toNat, 1)) := by
+  unfold mem
+  induction s with
+  | nil => simp [enumAll]
+  | cons b t ih =>
+    have hb := h b (by simp)
+    rw [List.cons_append, enumAll.eq_def]
+    simp only [hb.1, if_false, is1_true hb.2, if_true]
+    rw [ih (fun c hc => h c (by simp [hc]))]
+    simp
+
 end AslProofs.Utf
